@@ -202,6 +202,7 @@ def shards(tier, seed):
     sel_idx = QUICK_SELECTORS if tier == 'quick' else list(range(len(SELECTORS)))
     out = [('bfs', tier, d, si) for d in docs for si in sel_idx]
     out += [('api', tier, d, k, 4) for d in docs for k in range(4)]
+    out += [('edit', tier, d) for d in docs]
     return out
 
 
@@ -336,11 +337,133 @@ def run_api(sv, tier, docname, k, n, res):
         res.nontrivial += 1
 
 
+# ---------------------------------------------------------------- edits between queries
+def _find(doc, name, nth=0):
+    import bs4
+    k = 0
+    for e in T.elements(doc):
+        if e.name == name:
+            if k == nth:
+                return e
+            k += 1
+    return None
+
+
+def m_meta_de(doc):
+    m = _find(doc, 'meta')
+    if m is not None:
+        m['content'] = 'de'
+
+
+def m_meta_remove(doc):
+    m = _find(doc, 'meta')
+    if m is not None:
+        m.extract()
+
+
+def m_meta_add(doc):
+    h = _find(doc, 'head')
+    if h is not None:
+        import bs4
+        t = bs4.BeautifulSoup('', 'html.parser').new_tag('meta')
+        t['http-equiv'] = 'content-language'
+        t['content'] = 'en'
+        h.insert(0, t)
+
+
+def m_root_lang(doc):
+    r = T.elements(doc)[0]
+    r['lang'] = 'en'
+
+
+def m_check_radio(doc):
+    for e in T.elements(doc):
+        if e.name == 'input' and e.get('type') == 'radio' and e.get('name') == 'n' and not e.has_attr('checked'):
+            e['checked'] = ''
+            return
+
+
+def m_uncheck(doc):
+    for e in T.elements(doc):
+        if e.name == 'input' and e.has_attr('checked'):
+            del e['checked']
+            return
+
+
+def m_new_first_submit(doc):
+    f = _find(doc, 'form', 1) or _find(doc, 'form')
+    if f is not None:
+        import bs4
+        t = bs4.BeautifulSoup('', 'html.parser').new_tag('input')
+        t['type'] = 'submit'
+        f.insert(0, t)
+
+
+def m_class(doc):
+    for e in T.elements(doc):
+        if e.get('class') is not None:
+            e['class'] = 'red' if isinstance(e.get('class'), str) else ['red']
+            return
+
+
+def m_dir(doc):
+    for e in T.elements(doc):
+        if e.name == 'p':
+            e['dir'] = 'rtl'
+            return
+
+
+MUTATIONS = {'meta->de': m_meta_de, 'meta-removed': m_meta_remove, 'meta-added': m_meta_add, 'root-lang': m_root_lang, 'radio-checked': m_check_radio,
+             'unchecked': m_uncheck, 'new-first-submit': m_new_first_submit, 'class-changed': m_class, 'dir-rtl': m_dir}
+EDIT_QUERIES = [':lang(en)', ':lang(de)', ':lang("")', ':default', ':indeterminate', ':checked', '.big', '.red', '[class="big  red"]', ':dir(rtl)', ':dir(ltr)',
+                'p:lang(en), :default']
+
+
+def run_edits(sv, tier, docname, res):
+    """[query, edit the tree, query]: the second answer must be the answer for the tree as it is NOW (equal to the same query on a freshly
+    built document that received the same edit and was never queried before)."""
+    spec = documents()[docname]
+    for mname, mut in MUTATIONS.items():
+        for q1 in EDIT_QUERIES:
+            for q2 in (EDIT_QUERIES if tier != 'quick' else [q1] + EDIT_QUERIES[:3]):
+                doc = build_doc(spec)
+                fresh = build_doc(spec)
+                try:
+                    mut(fresh)
+                    mut(build_doc(spec))
+                except Exception:
+                    res.count('edit_not_applicable', 1)      # e.g. new_tag on a parentless subtree: my edit, not the library
+                    continue
+                fresh = build_doc(spec)
+                try:
+                    mut(fresh)
+                    sv.purge()
+                    want = api_call(sv, fresh, T.elements(fresh), ('select', q2, -1))
+                    sv.purge()
+                    api_call(sv, doc, T.elements(doc), ('select', q1, -1))
+                    mut(doc)
+                    got = api_call(sv, doc, T.elements(doc), ('select', q2, -1))
+                except Exception as e:
+                    got, want = 'raise:' + type(e).__name__, 'no exception'
+                res.evaluations += 1
+                if got != want:
+                    res.fail({'layer': 'edit', 'doc': docname, 'mutation': mname, 'q1': q1, 'q2': q2},
+                             {'kind': 'stale-answer-after-edit', 'mutation': mname, 'selector': q2},
+                             f'[{docname}] select({q1!r}); {mname}; select({q2!r}) = {got!r}, a never-queried copy with the same edit gives {want!r}')
+                else:
+                    res.outcome('edit-fresh')
+    res.count('transitions', len(MUTATIONS) * len(EDIT_QUERIES) * 3)
+    res.count('states', len(MUTATIONS))
+    res.nontrivial += 1
+
+
 def run_shard(desc):
     from .. import common
     sv = common.bind()
     res = shard.Result()
-    if desc[0] == 'bfs':
+    if desc[0] == 'edit':
+        run_edits(sv, desc[1], desc[2], res)
+    elif desc[0] == 'bfs':
         run_bfs(sv, desc[1], desc[2], desc[3], res)
     else:
         run_api(sv, desc[1], desc[2], desc[3], desc[4], res)
@@ -366,6 +489,17 @@ def replay(case):
         except Exception as e:
             return {'kind': 'raise:' + type(e).__name__, 'selector': case['selector']}, repr(e)
         return None
+    if case['layer'] == 'edit':
+        doc, fresh = build_doc(spec), build_doc(spec)
+        mut = MUTATIONS[case['mutation']]
+        mut(fresh)
+        sv.purge()
+        want = api_call(sv, fresh, T.elements(fresh), ('select', case['q2'], -1))
+        sv.purge()
+        api_call(sv, doc, T.elements(doc), ('select', case['q1'], -1))
+        mut(doc)
+        got = api_call(sv, doc, T.elements(doc), ('select', case['q2'], -1))
+        return None if got == want else ({'kind': 'stale-answer-after-edit', 'mutation': case['mutation'], 'selector': case['q2']}, f'{got} vs {want}')
     if case['layer'] == 'select-vs-match':
         doc = build_doc(spec)
         els = T.elements(doc)
